@@ -57,11 +57,14 @@ CONSTANTS
 CHECK_DEADLOCK FALSE
 """
 SAFETY = ("INVARIANTS TypeOK P_C14_Windows P_C14_NewStreamWindow P_C14_FrameSize P_C14_WholeFrames P_C14_MaxStreams P_C14_StreamIds "
-          "P_C14_Hpack P_C14_StreamStates P_C14_OwnWindows P_C14_Progress P_C14_NeverDropped P_C14_OwedIsEnabled\n"
+          "P_C14_Hpack P_C14_StreamStates P_C14_OwnWindows P_C14_Progress P_C14_NeverDropped P_C14_WriterAwake P_C14_OwedIsEnabled\n"
           "PROPERTIES P_C14_WindowSteps")
 ACTIONS = ["Peer_Settings", "Peer_Open", "Peer_Respond", "Peer_WindowUpdate", "Peer_SendData", "Peer_Starve", "Peer_Rst", "Sozu_Settings",
            "Sozu_AckSettings", "Sozu_Goaway", "Sozu_Rst", "Sozu_SendHeaders", "Sozu_SendCont", "Sozu_SendData", "Sozu_WindowUpdate",
-           "Env_Stall"]
+           "Sozu_Park", "Env_Stall"]
+# slips of the class "an event that reopens a send window does not wake the (event-driven) writer": switches of H2Flow.tla that
+# are never on in conformance; TLC must refute each of them (self-test of P_C14_WriterAwake / the liveness clause)
+WAKE_SLIPS = ["WuWakesFromZeroOnly", "AckWakesFromZeroOnly"]
 LIVE = "INVARIANTS TypeOK\nPROPERTIES P_C14_BodiesComplete P_C14_PeerNeverStuck"
 
 TRACE_CFG = """SPECIFICATION TraceSpec
@@ -98,7 +101,7 @@ CONSTANTS
   Default <- D_Default
   SettingsVals <- SV_Gen
   HdrArgs <- HA_Plain
-  MaxSettings = 2
+  MaxSettings = %(maxset)d
   Bodies = %(bodies)s
   Ups = %(ups)s
   Grants = {1, 2}
@@ -153,6 +156,10 @@ def model_configs(wd, thorough):
     # (the peer may also give the stream up: Resets)
     c.append(("windows-1stream", mc_cfg(wd, "mc_win1.cfg", ids=(1,), bodies=(0, 4) if thorough else (3,), sv="SV_Send", ha="HA_Upd",
                                         maxwin=4 if thorough else 3, grants=(1, 2), legal=True, resets=True)))
+    # SETTINGS_INITIAL_WINDOW_SIZE changed again and again under in-flight data: three SETTINGS frames (decrease below
+    # the bytes already sent => negative window, WINDOW_UPDATE that crosses zero in one step, increase from <= 0)
+    c.append(("windows-resettings", mc_cfg(wd, "mc_reset.cfg", ids=(1,), bodies=(3,), sv="SV_Win", maxwin=4 if thorough else 3,
+                                           grants=(1, 2) if not thorough else (1, 2, 3), maxset=3)))
     # illegal WINDOW_UPDATEs (overflow), the reaper, error answers
     c.append(("errors-reaper", mc_cfg(wd, "mc_err.cfg", ids=(1,), bodies=(2,), sv="SV_Small", ha="HA_Upd", maxwin=3, grants=(1, 3),
                                       reaper=True, legal=False, maxset=1 if not thorough else 2, resets=True)))
@@ -218,6 +225,11 @@ def concretise(hist, role, sid, variant):
             slot_of[h["sid"]] = len(streams) + 1
             streams.append({"down": h["b"] * unit + (variant % 3) - 1 if h["b"] else 0, "up": h["u"] * 20000})
             ops.append({"op": "open", "down": streams[-1]["down"], "up": streams[-1]["up"]})
+        elif op == "wu" and h["sid"] != 0 and h.get("w", 0) < 0 < h.get("w", 0) + h["n"]:
+            # the update that lifts a negative window above zero in the model does so on the wire too, whatever the
+            # race between sozu's DATA and the peer's SETTINGS made of the real window: the endpoint computes the
+            # increment from its ledger (op wu-cross) once sozu has acknowledged the SETTINGS and drained
+            ops += [{"op": "sync"}, {"op": "wu-cross", "slot": slot_of.get(h["sid"], (h["sid"] + 1) // 2), "extra": (h["w"] + h["n"]) * unit}]
         elif op == "wu":
             ops.append({"op": "wu", "slot": 0 if h["sid"] == 0 else slot_of.get(h["sid"], (h["sid"] + 1) // 2), "n": h["n"] * unit})
         elif op == "sync":
@@ -237,30 +249,49 @@ def concretise(hist, role, sid, variant):
 def generate_schedules(rep, wd, thorough):
     out = []
     seen = set()
-    # (role, Ids, Bodies, Ups, simulated behaviours per TLC worker, schedules kept)
-    plans = [("server", "{1, 3}", "{0, 2, 3}", "{0, 1}", 60 if not thorough else 400, 70 if not thorough else 600),
-             ("client", "{1, 3}", "{1, 3}", "{0, 1}", 30 if not thorough else 150, 30 if not thorough else 250)]
+    # (role, Ids, Bodies, Ups, simulated behaviours per TLC worker, schedules kept, SETTINGS frames, class filter)
+    # class "resettings": SETTINGS_INITIAL_WINDOW_SIZE changed under in-flight data - only schedules with a WINDOW_UPDATE
+    # that finds a NEGATIVE window and lifts it above zero in one step, or with three SETTINGS frames, are kept
+    plans = [("server", "{1, 3}", "{0, 2, 3}", "{0, 1}", 60 if not thorough else 400, 70 if not thorough else 600, 2, False),
+             ("client", "{1, 3}", "{1, 3}", "{0, 1}", 30 if not thorough else 150, 30 if not thorough else 250, 2, False),
+             ("server", "{1, 3}", "{2, 3}", "{0}", 800 if not thorough else 4000, 24 if not thorough else 200, 3, True),
+             ("client", "{1, 3}", "{3}", "{0}", 600 if not thorough else 3000, 12 if not thorough else 100, 3, True)]
     sid = 30000
-    for role, ids, bodies, ups, num, keep in plans:
-        cfg = write(os.path.join(wd, "gen_%s.cfg" % role), GEN_CFG % {"role": role, "ids": ids, "bodies": bodies, "ups": ups, "maxhist": 14})
+    for role, ids, bodies, ups, num, keep, maxset, focus in plans:
+        cfg = write(os.path.join(wd, "gen_%s%s.cfg" % (role, "_rs" if focus else "")),
+                    GEN_CFG % {"role": role, "ids": ids, "bodies": bodies, "ups": ups, "maxhist": 14 if not focus else 18, "maxset": maxset})
         g = vlib.tlc("Gen_H2Flow", cfg, PID, workers=2, timeout=240, simulate="num=%d" % num, depth=80, want_replay=True)
         if g["violated"]:
             raise vlib.ToolError("generator run reported %s" % g["violated"])
         rep.cov["transitions"] += g["generated"]
         n_role = 0
-        for hist in g["replays"]:
+        n_cross = 0
+        def crosses(hist):
+            return any(h["op"] == "wu" and h["sid"] != 0 and h.get("w", 0) < 0 < h.get("w", 0) + h["n"] for h in hist)
+        replays = g["replays"]
+        if focus:
+            # class weighting: the (rare, ~1 in 80) behaviours with a crossing update first, at most 2/3 of what is kept
+            first = [h for h in replays if crosses(h)][: max(1, 2 * keep // 3)]
+            replays = first + [h for h in replays if not crosses(h)]
+        for hist in replays:
             peer_ops = [h for h in hist if h["op"] != "sync"]
             if role == "server" and not any(h["op"] == "open" for h in hist):
                 continue
             if role == "client":
                 # the streams of a backend connection are opened by the cooperative client: 1..2 uploads
                 nstreams = len({h["sid"] for h in hist if h["op"] == "wu" and h["sid"] != 0}) or 1
-            key = (role, json.dumps(hist, sort_keys=True))
+            crossing = crosses(hist)
+            if focus and not (crossing or len([h for h in hist if h["op"] == "settings"]) >= 3):
+                continue
+            key = (role, json.dumps([{k: v for k, v in h.items() if k != "w"} for h in hist], sort_keys=True))
             if key in seen or not peer_ops:
                 continue
             seen.add(key)
             sid += 1
             sc = concretise(hist, role, sid, vlib.seed() + n_role)
+            if focus:
+                sc["label"] = sc["label"].replace("tlc:", "tlc:resettings%s:" % ("-cross" if crossing else ""))
+                n_cross += 1 if crossing else 0
             if role == "client":
                 unit = SCALES[(vlib.seed() + n_role) % len(SCALES)][0]
                 sc["streams"] = [{"down": 1000 * k, "up": (2 + k) * unit + k} for k in range(min(2, nstreams))]
@@ -269,7 +300,11 @@ def generate_schedules(rep, wd, thorough):
             n_role += 1
             if n_role >= keep:
                 break
-        vlib.log("generator %s: %d behaviours, %d distinct schedules" % (role, g["n_replays"], n_role))
+        vlib.log("generator %s%s: %d behaviours, %d distinct schedules%s" % (
+            role, " (SETTINGS under in-flight data)" if focus else "", g["n_replays"], n_role,
+            ", %d with a WINDOW_UPDATE that lifts a negative window above zero" % n_cross if focus else ""))
+        if focus and n_cross == 0:
+            raise vlib.ToolError("generator %s: no schedule in which a WINDOW_UPDATE crosses zero from a negative window" % role)
     return out
 
 
@@ -425,6 +460,21 @@ def run(tier, replay=None):
             raise vlib.ToolError("deviation %s no longer violates P_C14 in the model" % d)
         vlib.log("deviation %s: TLC counterexample to %s as expected" % (d, rd["violated"]))
 
+    # 2a. self-test: every slip of the class "a reopened window does not wake the writer" is refuted by TLC
+    for d in WAKE_SLIPS:
+        rd = vlib.tlc("MC_H2Flow", mc_cfg(wd, "mc_slip_%s.cfg" % d, ids=(1,), bodies=(3,), sv="SV_Win", maxwin=3, grants=(1, 2), dev=(d,),
+                                          maxset=3), PID, workers=workers, timeout=600)
+        rep.add_tlc(rd)
+        if rd["violated"] != "P_C14_WriterAwake":
+            raise vlib.ToolError("slip %s is not refuted by P_C14_WriterAwake (TLC: %s)" % (d, rd["violated"]))
+        vlib.log("slip %s: TLC counterexample to %s as expected" % (d, rd["violated"]))
+        rl = vlib.tlc("MC_H2Flow", mc_cfg(wd, "mc_slip_live_%s.cfg" % d, checks=LIVE, spec="FairSpec", ids=(1,), bodies=(2,), ups=(0,),
+                                          sv="SV_Win", maxwin=2, conninit=1, grants=(1, 2), recvinit=1, recvconn=2, dev=(d,), maxset=2),
+                      PID, workers=workers, timeout=600)
+        rep.add_tlc(rl)
+        if rl["violated"] != "P_C14_BodiesComplete":
+            raise vlib.ToolError("slip %s does not break P_C14_BodiesComplete under fairness (TLC: %s)" % (d, rl["violated"]))
+
     # 2b. the writer of the connection (spec/H2Wire.tla): whole frames only, every slip of that class refuted
     h2wire.check(rep, wd, PID, thorough)
 
@@ -448,6 +498,8 @@ def run(tier, replay=None):
     vlib.log("drive_h2flow: %d scenarios, %d connections (%d done, %d closed, %d stalled, %d garbled, %d inconclusive), %.1f MB of DATA, %.1fs" % (
         summ["scenarios"], summ["runs"], summ["done"], summ["closed"], summ["stall"], summ.get("garbled", 0), summ["inconclusive"],
         summ["data_bytes"] / 1e6, summ["wall_s"]))
+    vlib.log("sidecar liveness probes (silence of sozu while the ledger says it owes a frame): %d" % summ.get("sidecar_probes", 0))
+    rep.extra["sidecar_liveness_probes"] = summ.get("sidecar_probes", 0)
     half = (summ.get("half_frame_wu_pending", 0), summ.get("half_frame_zero_deferred", 0))
     vlib.log("full-duplex schedules: %d park snapshots with a half-written stream frame and WINDOW_UPDATEs queued behind it, %d with an answer "
              "deferred in the zero buffer" % half)
@@ -506,7 +558,7 @@ def run(tier, replay=None):
         rep.add_samples(by_origin.get(origin, [])[:: max(1, len(by_origin.get(origin, [])) // 3)], 3)
     rep.assumptions += [
         "a peer WINDOW_UPDATE is entered in the ledger when it is sent and new SETTINGS when sozu acknowledges them (exact for shrinks, never stricter than the wire for growth)",
-        "liveness in the implementation is observed, not proved: a stall is recorded only if sozu answered a PING sent after the peer's last frame and then stayed silent for the grace period while the ledger says it owes a frame; an unanswered PING makes the connection inconclusive",
+        "liveness in the implementation is observed, not proved: a stall is recorded only if the worker (one event loop) answered two PING round trips on a SIDECAR connection begun after the peer's last frame - nothing is sent on the checked connection, a frame there would wake sozu's writer - and the checked connection stayed silent for the grace period, twice, while the ledger says sozu owes a frame; an unanswered sidecar makes the connection inconclusive",
         "TLC's model is bounded (windows <= 4, two streams, bodies <= 4, at most two SETTINGS); real sizes (2^31-1 windows, MB bodies, 2^24-1 frames) are reached only through trace validation of sampled schedules",
         "the checked peer stays below sozu's flood thresholds (C15): at most 30 connection-level WINDOW_UPDATEs per second, a PING round trip every 1000 frames, bodies cut into at most ~200 frames - except the two schedules that reproduce the open finding LoopBudget",
         "the origin behind sozu (mock HTTP/1.1 server, cooperative H2 client) is prompt; sozu's stall reaper is allowed once the peer's clock shows a stream window-blocked for half the configured h2_stream_idle_timeout",
